@@ -212,4 +212,139 @@ theorem C04_gen_encode_audio (m : Muxer) (d : Bytes) (n : Nat) : encode_audio m 
     obtain ⟨m', r⟩ := x
     cases r <;> rfl
 
+/-! ### the calls after their guards: tick conversion, writer call with error conversion, bookkeeping of an accepted frame -/
+
+theorem tail_reply (r : WRes) (idx : Nat) (hr : r ≠ .ok) :
+    (match r with | .err e => convert_mp4_error e idx | .panic => Reply.panic | .ok => Reply.ok) = wresReply r idx := by
+  cases r with
+  | ok => exact absurd rfl hr
+  | err e => simp only [wresReply]; exact C04_gen_convert_error e idx
+  | panic => rfl
+
+/-- `write_video`: when the translated guards name no error, the model's call is the translated tail -/
+theorem C04_gen_write_video_tail (m : Muxer) (pts : F64) (d : Bytes) (k : Bool) (h : write_video m pts d = none) :
+    m.writeVideo pts d k = write_video_tail m pts d k := by
+  unfold write_video at h
+  unfold Muxer.writeVideo write_video_tail
+  by_cases h1 : d = []
+  · simp [firstSome, h1] at h
+  by_cases h2 : pts.isFinite
+  · by_cases h3 : pts.isNeg
+    · have h3' : F64.lt pts F64.zero = true := h3
+      simp [firstSome, h1, h2, h3'] at h
+    have h3' : ¬ F64.lt pts F64.zero = true := h3
+    by_cases h4 : ticksRepresentable pts
+    · cases hl : m.lastVideoPts with
+      | none =>
+        simp only [h1, h2, h3, h4, hl, if_false, not_true_eq_false, Bool.false_eq_true]
+        generalize m.w.writeVideo pts.ticks pts.ticks d k = x
+        obtain ⟨w', r⟩ := x
+        cases r with
+        | ok => cases hf : m.firstVideoPts <;> simp [hf, hl]
+        | err e => simp [wresReply, C04_gen_convert_error]
+        | panic => simp [wresReply]
+      | some prev =>
+        by_cases h5 : F64.le pts prev = true
+        · simp [firstSome, h1, h2, h3', h4, hl, h5] at h
+        simp only [h1, h2, h3, h4, hl, h5, if_false, not_true_eq_false, Bool.false_eq_true]
+        generalize m.w.writeVideo pts.ticks pts.ticks d k = x
+        obtain ⟨w', r⟩ := x
+        cases r with
+        | ok => cases hf : m.firstVideoPts <;> simp [hf, hl]
+        | err e => simp [wresReply, C04_gen_convert_error]
+        | panic => simp [wresReply]
+    · simp [firstSome, h1, h2, h3', h4] at h
+  · simp [firstSome, h1, h2] at h
+
+/-- the three outcomes of the writer call, after the guards (video) -/
+macro "video_tail_cases" m:ident x:term : tactic => `(tactic| (
+  generalize $x = y
+  obtain ⟨w', r⟩ := y
+  cases r with
+  | ok => cases hf : ($m).firstVideoPts <;> simp [hf]
+  | err e => simp [wresReply, C04_gen_convert_error]
+  | panic => simp [wresReply]))
+
+/-- `write_video_with_dts`: when the translated guards name no error, the model's call is the translated tail -/
+theorem C04_gen_write_video_dts_tail (m : Muxer) (pts dts : F64) (d : Bytes) (k : Bool)
+    (h : write_video_with_dts m pts dts d = none) : m.writeVideoDts pts dts d k = write_video_with_dts_tail m pts dts d k := by
+  unfold write_video_with_dts at h
+  unfold Muxer.writeVideoDts write_video_with_dts_tail
+  by_cases h0 : m.finished = true
+  · simp [firstSome, h0] at h
+  by_cases h1 : d = []
+  · simp [firstSome, h0, h1] at h
+  by_cases h2 : pts.isFinite
+  · by_cases h3 : pts.isNeg
+    · have h3' : F64.lt pts F64.zero = true := h3
+      simp [firstSome, h0, h1, h2, h3'] at h
+    have h3' : ¬ F64.lt pts F64.zero = true := h3
+    by_cases h4 : ticksRepresentable pts
+    · by_cases g2 : dts.isFinite
+      · by_cases g3 : dts.isNeg
+        · have g3' : F64.lt dts F64.zero = true := g3
+          simp [firstSome, h0, h1, h2, h3', h4, g2, g3'] at h
+        have g3' : ¬ F64.lt dts F64.zero = true := g3
+        by_cases g4 : ticksRepresentable dts
+        · cases hl : m.lastVideoDts with
+          | none =>
+            simp only [h0, h1, h2, h3, h4, g2, g3, g4, hl, if_false, not_true_eq_false, Bool.false_eq_true]
+            video_tail_cases m (m.w.writeVideo pts.ticks dts.ticks d k)
+          | some prev =>
+            by_cases h5 : F64.le dts prev = true
+            · simp [firstSome, h0, h1, h2, h3', h4, g2, g3', g4, hl, h5] at h
+            simp only [h0, h1, h2, h3, h4, g2, g3, g4, hl, h5, if_false, not_true_eq_false, Bool.false_eq_true]
+            video_tail_cases m (m.w.writeVideo pts.ticks dts.ticks d k)
+        · simp [firstSome, h0, h1, h2, h3', h4, g2, g3', g4] at h
+      · simp [firstSome, h0, h1, h2, h3', h4, g2] at h
+    · simp [firstSome, h0, h1, h2, h3', h4] at h
+  · simp [firstSome, h0, h1, h2] at h
+
+/-- the three outcomes of the writer call, after the guards (audio) -/
+macro "audio_tail_cases" x:term : tactic => `(tactic| (
+  generalize $x = y
+  obtain ⟨w', r⟩ := y
+  cases r with
+  | ok => simp
+  | err e => simp [wresReply, C04_gen_convert_error]
+  | panic => simp [wresReply]))
+
+/-- `write_audio`: when the translated guards name no error, the model's call is the translated tail -/
+theorem C04_gen_write_audio_tail (m : Muxer) (pts : F64) (d : Bytes) (h : write_audio m pts d = none) :
+    m.writeAudio pts d = write_audio_tail m pts d := by
+  unfold write_audio at h
+  unfold Muxer.writeAudio write_audio_tail
+  by_cases h0 : m.finished = true
+  · simp [firstSome, h0] at h
+  by_cases ha : m.audioTrack.isNone = true
+  · simp [firstSome, h0, ha] at h
+  by_cases h2 : pts.isFinite
+  · by_cases h3 : pts.isNeg
+    · have h3' : F64.lt pts F64.zero = true := h3
+      simp [firstSome, h0, ha, h2, h3'] at h
+    have h3' : ¬ F64.lt pts F64.zero = true := h3
+    by_cases h4 : ticksRepresentable pts
+    · by_cases h1 : d = []
+      · simp [firstSome, h0, ha, h2, h3', h4, h1] at h
+      cases hf : m.firstVideoPts with
+      | none => cases hl : m.lastAudioPts with
+        | none => simp [firstSome, h0, ha, h2, h3', h4, h1, hf, hl] at h
+        | some prev => by_cases h5 : F64.lt pts prev = true <;> simp [firstSome, h0, ha, h2, h3', h4, h1, hf, hl, h5] at h
+      | some fv =>
+        by_cases h6 : F64.lt pts fv = true
+        · cases hl : m.lastAudioPts with
+          | none => simp [firstSome, h0, ha, h2, h3', h4, h1, hf, hl, h6] at h
+          | some prev => by_cases h5 : F64.lt pts prev = true <;> simp [firstSome, h0, ha, h2, h3', h4, h1, hf, hl, h5, h6] at h
+        cases hl : m.lastAudioPts with
+        | none =>
+          simp only [h0, ha, h1, h2, h3, h4, hl, hf, h6, if_false, not_true_eq_false, Bool.false_eq_true]
+          audio_tail_cases (m.w.writeAudio pts.ticks d)
+        | some prev =>
+          by_cases h5 : F64.lt pts prev = true
+          · simp [firstSome, h0, ha, h2, h3', h4, h1, hf, hl, h5] at h
+          simp only [h0, ha, h1, h2, h3, h4, hl, hf, h5, h6, if_false, not_true_eq_false, Bool.false_eq_true]
+          audio_tail_cases (m.w.writeAudio pts.ticks d)
+    · simp [firstSome, h0, ha, h2, h3', h4] at h
+  · simp [firstSome, h0, ha, h2] at h
+
 end Muxide.Props.C04Generated
